@@ -100,6 +100,9 @@ func (b *Bytes) Set(src Blob, destStart int64) (n int, err error) {
 	if destStart >= int64(b.Len()) && destStart == 0 && src.Len() > 0 {
 		return 0, fmt.Errorf("Offset out of bounds: %d", destStart)
 	}
+	if destStart > int64(b.Len()) {
+		return 0, fmt.Errorf("Offset out of bounds: %d", destStart)
+	}
 	b.mu.Lock()
 	n = copy(b.bytes[destStart:], src.Bytes())
 	b.mu.Unlock()
